@@ -70,11 +70,60 @@ PROPS = {
                        'whatever follows it, consumes exactly its own bytes and is classified by the spec (too large iff its OWN size exceeds the limit).',
         'assumptions': ['reply-size limit and "nothing is forwarded for a rejected request" are covered by the server-codec / event-loop checks'],
     },
+    'C07': {
+        'props': 'Props/C07.v',
+        'suites': [{'name': 'merge', 'oracles': {'merge': 'o_merge'}, 'trivial_tags': ['frags-1'], 'vm_sample': 25}, {'name': 'sdecode', 'trivial_tags': ['out-wait'], 'vm_sample': 40}],
+        'rule': 'merge: one client request (MGET/DEL/MSET with shared hash tags, duplicates, empty/binary keys; some single-key) through the production '
+                'event loop on socketpairs with 4 backend nodes x up to 16 connections; the harness parses every fragment with a strict parser, answers '
+                'from a random store (absent keys, empty values, values with CR/LF) and releases the answers in EVERY order (<= 3 fragments quick, <= 4 '
+                'thorough) or in random orders; 35% of plans inject backend errors. distinct = distinct (request, release order); non-trivial = more than one fragment',
+        'explanation': 'Theorems: for any slot function, key list, store and ANY permutation of the fragment replies the merged reply is the per-key array in request '
+                       'order / the sum / OK-iff-all-OK, nothing is delivered before the last fragment answered, and the result is independent of the order. '
+                       'Model tied to conn.sread + SRespCodec by differential run through the real loop; MergeSpec evaluated on the client byte stream.',
+        'assumptions': ['backend replies are well-formed RESP2 with one element per requested key (a shorter MGET array is an index panic in the Go code: environment assumption wf_backend)',
+                        'fragment replies and the merged reply fit the size limit (otherwise the size error is the specified outcome)'],
+    },
+    'C11': {
+        'props': 'Props/C11.v',
+        'suites': [{'name': 'merge', 'oracles': {'merge': 'o_merge'}, 'trivial_tags': ['frags-1'], 'vm_sample': 25}, {'name': 'sdecode', 'trivial_tags': ['out-wait'], 'vm_sample': 40}],
+        'rule': 'as C07; error replies drawn from ERR, WRONGTYPE, LOADING, CLUSTERDOWN, TRYAGAIN, CROSSSLOT, READONLY, MASTERDOWN, NOSCRIPT, BUSY, MISCONF, OOM and degenerate "-ERR", "-E" on any subset of fragments',
+        'explanation': 'Theorems: an error (any non-array for MGET, any non-integer for DEL, any non-OK for MSET) on any fragment completes the request with an error reply, exactly once, '
+                       'later replies are discarded; single-key errors are handed on verbatim; no step is Crash/Hang. Two genuine defects found and repaired (DEL summed -1; MGET panicked).',
+        'assumptions': ['redirect (MOVED/ASK) and auth errors are handled by C13 / shutdown path, not here'],
+    },
+    'C02': {
+        'props': 'Props/C02.v',
+        'suites': [{'name': 'cdecode', 'oracles': {'cdecode': 'o_reqs'}, 'trivial_tags': ['out-wait'], 'vm_sample': 40}, {'name': 'sdecode', 'trivial_tags': ['out-wait'], 'vm_sample': 40}, {'name': 'merge', 'oracles': {'merge': 'o_merge'}, 'trivial_tags': ['frags-1'], 'vm_sample': 25}],
+        'rule': 'cdecode: every single-key command with empty/binary/CRLF-bearing arguments; sdecode: random RESP2 values to depth 4 (status, error, integer, bulk incl. 9/10/99/100/999/1000-byte, '
+                'null, arrays, null array), pipelined, every kind of prefix, mutated; handshake decoder on all splits of one and two +OK; merge: single-key round trips through the real loop',
+        'explanation': 'Theorems: the single fragment is the client request with only the command name lower-cased (C02_request); every well-formed RESP2 value is framed exactly whatever follows '
+                       '(C02_reply_framed, by induction on the value); the reply is handed on verbatim within the limit (C02_reply_verbatim); handshake +OK replies are swallowed exactly, also when split. '
+                       'The partial-write / slow-reader conservation is covered by the buffer model (C19).',
+        'assumptions': ['kernel/TCP deliver what was written', 'AUTH and READONLY both succeed on a backend connection (wf_backend handshake assumption)'],
+    },
 }
 
 NOT_YET = {}
 
 MANIFEST_TEXT = {
+    'C07': {
+        'text': 'Coq theorems: for any slot function, key list, store and any permutation of the fragment replies, the merged MGET/DEL/MSET reply is as specified, nothing is '
+                'delivered early and the result is order-independent. Tied to the Go merge code by running real requests through the production event loop with all release orders.',
+        'note': 'Trusted: Coq kernel, translator, extraction, harness + stepper hooks, transcription in Model/ServerCodec.v. Environment assumption: well-formed backend replies.',
+        'technique': 'Coq proof (invariant over the set of answered fragments, induction over any permutation) + differential correspondence through the real event loop',
+    },
+    'C11': {
+        'text': 'Coq theorems: any error reply on any fragment at any time completes a split request with an error, exactly once; single-key errors pass verbatim; no crash or stall in the model. '
+                'Error injection on every subset position through the production loop; two defects repaired.',
+        'note': 'Trusted as C07.',
+        'technique': 'Coq proof (case analysis of the merge step + discard-after-completion lemma) + differential correspondence with error injection',
+    },
+    'C02': {
+        'text': 'Coq theorems: request fragment = client bytes with lower-cased command name; every RESP2 value framed exactly (induction over nested arrays); verbatim hand-on within the limit; '
+                'handshake swallowed exactly. Differential runs of both codecs and of round trips through the real loop.',
+        'note': 'Trusted as C07. Partial writes to a slow reader are decided with the buffer model (C19); kernel delivery is assumed.',
+        'technique': 'Coq proof (structural induction on RESP2 values, parser/encoder round trip) + differential correspondence',
+    },
     'C06': {
         'text': 'Coq theorems: the splitter model yields, for any slot function and any key list, exactly one canonical fragment per distinct slot with exactly '
                 'that slot\'s items in order (plus the partition corollary), and the decoder builds these fragments for every MGET/DEL/MSET stream. '
